@@ -90,6 +90,24 @@ fn main() {
                 Err(e) => println!("{e}"),
             }
         }
+        "eval" => {
+            // debug: run fn main() of a script in the IR evaluator
+            worker::install_panic_hook();
+            let src = std::fs::read_to_string(&args[2]).expect("read script");
+            let rt = host::build_runtime();
+            match roto::FileTree::test_file("case.roto", &src, 0).parse().and_then(|p| p.typecheck(&rt)) {
+                Ok(tc) => {
+                    let l = tc.lower_to_mir().lower_to_lir();
+                    host::reset(vec![1, 2, 3, 4, 5, 6]);
+                    let r = l.verif_eval(&[]);
+                    println!("evaluator: {:?}", r);
+                    for e in host::take_log() {
+                        println!("  {}", model::show_ev(&e));
+                    }
+                }
+                Err(e) => println!("{}", host::render_report(&e)),
+            }
+        }
         "reduce" => {
             // debug: reduce a replay file in-process
             worker::install_panic_hook();
